@@ -1,4 +1,191 @@
-//! C08 operations (filled in below).
-pub fn dispatch(_op: &str, _args: &[String]) -> bool {
-    false
+//! C08 operations (write then parse preserves the rendering).
+//!   c08-rt      payload `opts\twopts\tdoc` -> {"a":<dump of T>,"b":<dump of parse(write(T))> | {"error":..}}
+//!   c08-render  payload `opts\twopts\tdoc` -> {"size":[w,h],"r":[{"scale":s,"w":..,"h":..,"n12":..,"big12":..,"max12":..,
+//!                    "n23":..,"max23":..,"nonblank":..},..],"fixed2":bool,"fixed3":bool,
+//!                    "drift":[comparable, coordinates of T2 that differ from T1, largest relative difference]}
+//!               ({"render_panic":..} when T itself cannot be rendered: not a round-trip matter)
+//!               T2 = parse(write(T)), T3 = parse(write(T2)); n12 = pixels of render(T) vs render(T2) differing by more than 2
+//!               in some channel, big12 = by more than 72, n23 = pixels of render(T2) vs render(T3) differing at all;
+//!               fixed2 / fixed3: write(T2) == write(T) / write(T3) == write(T2)
+use crate::c07::parse_wopts;
+use crate::dump::{dump_tree, esc};
+use crate::util::*;
+
+pub fn dispatch(op: &str, _args: &[String]) -> bool {
+    match op {
+        "c08-rt" => run_batch(op_rt),
+        "c08-render" => run_batch(op_render),
+        _ => return false,
+    }
+    true
+}
+
+fn reparse(text: &str, opts: &str, doc: &str) -> Result<usvg::Tree, String> {
+    let mut opt = make_options(opts);
+    if let Some(p) = doc.strip_prefix('@') {
+        opt.resources_dir = std::path::Path::new(p).parent().map(|x| x.to_owned());
+    }
+    usvg::Tree::from_str(text, &opt).map_err(|e| format!("{}", e))
+}
+
+fn op_rt(payload: &str) -> String {
+    let f: Vec<&str> = payload.splitn(3, '\t').collect();
+    if f.len() < 3 {
+        return "{\"error\":\"bad payload\"}".to_string();
+    }
+    let tree = match parse_doc(f[0], f[2]) {
+        Ok(t) => t,
+        Err(e) => return format!("{{\"error\":{}}}", esc(&e)),
+    };
+    let wo = parse_wopts(f[1]);
+    let text = tree.to_string(&wo);
+    let b = match reparse(&text, f[0], f[2]) {
+        Ok(t2) => dump_tree(&t2),
+        Err(e) => format!("{{\"error\":{}}}", esc(&e)),
+    };
+    format!("{{\"a\":{},\"b\":{},\"text\":{}}}", dump_tree(&tree), b, esc(&text))
+}
+
+fn diff_stats(a: &tiny_skia::Pixmap, b: &tiny_skia::Pixmap) -> (usize, usize, usize, u8) {
+    // (pixels differing at all, by more than 2, by more than 72, max channel delta)
+    let (mut n0, mut n2, mut n72, mut mx) = (0usize, 0usize, 0usize, 0u8);
+    for (pa, pb) in a.data().chunks_exact(4).zip(b.data().chunks_exact(4)) {
+        let mut d = 0u8;
+        for k in 0..4 {
+            let x = pa[k].abs_diff(pb[k]);
+            if x > d {
+                d = x;
+            }
+        }
+        if d > 0 {
+            n0 += 1;
+        }
+        if d > 2 {
+            n2 += 1;
+        }
+        if d > 72 {
+            n72 += 1;
+        }
+        if d > mx {
+            mx = d;
+        }
+    }
+    (n0, n2, n72, mx)
+}
+
+fn all_coords(g: &usvg::Group, out: &mut Vec<f32>, paths: &mut usize) {
+    for n in g.children() {
+        match n {
+            usvg::Node::Group(g2) => all_coords(g2, out, paths),
+            usvg::Node::Path(p) => {
+                *paths += 1;
+                for pt in p.data().points() {
+                    out.push(pt.x);
+                    out.push(pt.y);
+                }
+            }
+            usvg::Node::Image(_) => {}
+            usvg::Node::Text(t) => all_coords(t.flattened(), out, paths),
+        }
+        n.subroots(|r| all_coords(r, out, paths));
+    }
+}
+
+/// path coordinates of two trees compared position by position: (comparable, number that differ, largest difference relative to max(|x|, 1))
+fn coord_drift(a: &usvg::Tree, b: &usvg::Tree) -> (bool, usize, f32) {
+    let (mut ca, mut cb, mut pa, mut pb) = (Vec::new(), Vec::new(), 0usize, 0usize);
+    all_coords(a.root(), &mut ca, &mut pa);
+    all_coords(b.root(), &mut cb, &mut pb);
+    if ca.len() != cb.len() || pa != pb {
+        return (false, 0, 0.0);
+    }
+    let mut n = 0;
+    let mut mx = 0.0f32;
+    for (x, y) in ca.iter().zip(cb.iter()) {
+        if x != y {
+            n += 1;
+            let d = (x - y).abs() / x.abs().max(y.abs()).max(1.0);
+            if d > mx {
+                mx = d;
+            }
+        }
+    }
+    (true, n, mx)
+}
+
+fn op_render(payload: &str) -> String {
+    let f: Vec<&str> = payload.splitn(3, '\t').collect();
+    if f.len() < 3 {
+        return "{\"error\":\"bad payload\"}".to_string();
+    }
+    let started = std::time::Instant::now();
+    let t1 = match parse_doc(f[0], f[2]) {
+        Ok(t) => t,
+        Err(e) => return format!("{{\"error\":{}}}", esc(&e)),
+    };
+    let wo = parse_wopts(f[1]);
+    let x1 = t1.to_string(&wo);
+    let t2 = match reparse(&x1, f[0], f[2]) {
+        Ok(t) => t,
+        Err(e) => return format!("{{\"reparse\":{}}}", esc(&e)),
+    };
+    let x2 = t2.to_string(&wo);
+    let t3 = match reparse(&x2, f[0], f[2]) {
+        Ok(t) => t,
+        Err(e) => return format!("{{\"reparse2\":{}}}", esc(&e)),
+    };
+    let x3 = t3.to_string(&wo);
+    let mut o = format!(
+        "{{\"size\":[{},{}],\"size2\":[{},{}],\"r\":[",
+        crate::dump::num(t1.size().width()),
+        crate::dump::num(t1.size().height()),
+        crate::dump::num(t2.size().width()),
+        crate::dump::num(t2.size().height())
+    );
+    let mut first = true;
+    let mut skipped2 = false;
+    for scale in [1.0f32, 2.0f32] {
+        // rendering cost can grow with the 4th power of the scale (feMorphology, see C02): the 2x pass is skipped
+        // when the three 1x renders already took more than 1.5 s
+        if scale > 1.0 && started.elapsed().as_millis() > 1500 {
+            skipped2 = true;
+            continue;
+        }
+        let w = ((t1.size().width() * scale).ceil() as u32).clamp(1, 1200);
+        let h = ((t1.size().height() * scale).ceil() as u32).clamp(1, 1200);
+        let ts = tiny_skia::Transform::from_scale(scale, scale);
+        // a tree that cannot be rendered at all is a matter of C01 / C02, not of the round trip
+        let r1 = std::panic::catch_unwind(std::panic::AssertUnwindSafe(|| render_tree(&t1, w, h, ts)));
+        let r1 = match r1 {
+            Ok(p) => p,
+            Err(e) => return format!("{{\"render_panic\":{}}}", esc(&panic_msg(e))),
+        };
+        let (p1, p2, p3) = match (r1, render_tree(&t2, w, h, ts), render_tree(&t3, w, h, ts)) {
+            (Some(a), Some(b), Some(c)) => (a, b, c),
+            _ => continue,
+        };
+        let (_, n12, b12, m12) = diff_stats(&p1, &p2);
+        let (n23, _, _, m23) = diff_stats(&p2, &p3);
+        let nonblank = p1.data().chunks_exact(4).filter(|p| p[3] != 0).count();
+        if !first {
+            o.push(',');
+        }
+        first = false;
+        o.push_str(&format!(
+            "{{\"scale\":{},\"w\":{},\"h\":{},\"n12\":{},\"big12\":{},\"max12\":{},\"n23\":{},\"max23\":{},\"nonblank\":{}}}",
+            scale, w, h, n12, b12, m12, n23, m23, nonblank
+        ));
+    }
+    let (cmp, ndrift, maxdrift) = coord_drift(&t1, &t2);
+    o.push_str(&format!(
+        "],\"fixed2\":{},\"fixed3\":{},\"skipped2\":{},\"drift\":[{},{},{}],\"ms\":{}}}",
+        x2 == x1,
+        x3 == x2,
+        skipped2,
+        cmp,
+        ndrift,
+        crate::dump::num(maxdrift),
+        started.elapsed().as_millis()
+    ));
+    o
 }
